@@ -375,9 +375,22 @@ def _digit_text(t, item):
 def _append_of(step, acc, item):
     """step = the accumulator after exactly one append of the digit text of `item` to `acc`"""
     step = strip(step)
-    if step[0] != "after" or not util.is_call(step[1]) or step[1][1] not in APPEND or step[2] != 0:
+    if step[0] != "after" or not util.is_call(step[1]) or step[2] != 0 or strip(step[3]) != strip(acc):
         return False
-    return strip(step[3]) == strip(acc) and _digit_text(step[1][2][1], item)
+    c = step[1]
+    if c[1] in APPEND:
+        return _digit_text(c[2][1], item)
+    if c[1].endswith("fmt::Write::write_fmt") and len(c[2]) == 2:
+        # `write!(s, "{}", b)`: one default `{}` placeholder and nothing else (template b"\xC0\x00",
+        # core::fmt's encoding of the format string), its argument the byte through Display - the
+        # same decimal text as to_string(); writing to a String cannot fail
+        a = strip(c[2][1])
+        if util.is_call(a) and a[1].split("::<")[0].endswith("fmt::Arguments") and a[1].endswith("::new") and len(a[2]) == 2:
+            tpl, arr = strip(a[2][0]), strip(a[2][1])
+            tpl_ok = tpl[0] == "bytes" and bytes(tpl[1]) == b"\xc0\x00"
+            arg_ok = arr[0] == "agg" and arr[1] == "array" and len(arr[4]) == 1 and util.is_call(strip(arr[4][0])) and strip(arr[4][0])[1].endswith("::new_display") and strip(strip(arr[4][0])[2][0]) == strip(item)
+            return tpl_ok and arg_ok
+    return False
 
 
 def _renders(ctx, se, x, cell, depth=0):
